@@ -278,6 +278,57 @@ pub fn error_stress(root: c_int, nthreads: usize, per_thread: usize, seed: u64) 
     for h in handles {
         violations.extend(h.join().unwrap());
     }
+    // phase B2: several threads race for the SAME id (released together by a barrier): exactly one of them may get the error
+    {
+        let racers = nthreads.clamp(2, 8);
+        let rounds = (per_thread * 4).max(200);
+        let barrier = Arc::new(std::sync::Barrier::new(racers));
+        let ids: Arc<Vec<(c_int, String)>> = Arc::new(
+            (0..rounds)
+                .map(|j| {
+                    let tok = format!("contended-{j}");
+                    let p = CString::new(tok.clone()).unwrap();
+                    (unsafe { pathrs_inroot_resolve(root, p.as_ptr()) }, tok)
+                })
+                .collect(),
+        );
+        let mut handles = vec![];
+        for _ in 0..racers {
+            let barrier = barrier.clone();
+            let ids = ids.clone();
+            handles.push(std::thread::spawn(move || {
+                let mut got = vec![];
+                for (id, tok) in ids.iter() {
+                    barrier.wait();
+                    let e = unsafe { pathrs_errorinfo(*id) };
+                    if !e.is_null() {
+                        let desc = unsafe {
+                            if (*e).description.is_null() { String::new() } else { std::ffi::CStr::from_ptr((*e).description).to_string_lossy().to_string() }
+                        };
+                        unsafe { pathrs_errorinfo_free(e) };
+                        got.push((*id, desc.contains(tok.as_str())));
+                    }
+                }
+                got
+            }));
+        }
+        let mut count: std::collections::HashMap<c_int, (usize, bool)> = std::collections::HashMap::new();
+        for h in handles {
+            for (id, right) in h.join().unwrap() {
+                let e = count.entry(id).or_insert((0, true));
+                e.0 += 1;
+                e.1 &= right;
+            }
+        }
+        for (id, _) in ids.iter() {
+            match count.get(id) {
+                Some((1, true)) => {}
+                Some((n, right)) => violations.push(json!({"what": "an error id raced for by several threads was handed out more than once (or with the wrong content)",
+                                                           "id": id, "handed_out": n, "content_right": right, "racing_threads": racers})),
+                None => violations.push(json!({"what": "an error id raced for by several threads was handed out to nobody", "id": id, "racing_threads": racers})),
+            }
+        }
+    }
     // phase C: interleaved store/take with a serialised log
     let log: Arc<Mutex<Vec<Value>>> = Arc::new(Mutex::new(vec![]));
     let pool: Arc<Mutex<Vec<(c_int, String)>>> = Arc::new(Mutex::new(vec![]));
